@@ -55,6 +55,10 @@ fn reset_output(f: &Fam) {
 
 /// run one clone; returns (outcome, number of output writes, faults that fired)
 fn clone_once(env: &Env, seed_output: bool, use_seeds: bool, verify_output: bool, fault: Option<(u64, FaultAction)>) -> (Outcome, u64, usize) {
+    clone_once_op(env, seed_output, use_seeds, verify_output, fault, Op::Write)
+}
+
+fn clone_once_op(env: &Env, seed_output: bool, use_seeds: bool, verify_output: bool, fault: Option<(u64, FaultAction)>, fault_op: Op) -> (Outcome, u64, usize) {
     let f = env.f;
     let exists = scen::exists("out.bin");
     let opts = CloneOpts {
@@ -77,7 +81,7 @@ fn clone_once(env: &Env, seed_output: bool, use_seeds: bool, verify_output: bool
         p.capture = false;
         p.writes = 0;
         if let Some((k, a)) = &fault {
-            s.add_fault("out.bin", Op::Write, *k, a.clone());
+            s.add_fault("out.bin", fault_op, *k, a.clone());
         }
     });
     simkit::with(|s| s.crashed = false);
@@ -154,6 +158,12 @@ pub fn run(ctx: &mut Ctx) {
     };
     let mut fired_total = 0usize;
     let mut mid_crashes = 0u64;
+    // one more crash point per scenario: after the last write has landed, at the final resize
+    // (regular files only: devices are not resized)
+    let mut ks = ks;
+    if !error_family && !f.blockdev {
+        ks.push(u64::MAX);
+    }
     for &k in &ks {
         if ctx.failed() {
             return;
@@ -162,10 +172,18 @@ pub fn run(ctx: &mut Ctx) {
         if !error_family {
             // ---- crash family
             let p = tear(avg);
-            let (o1, _, fired) = clone_once(&env, f.seed_output, true, false, Some((k, FaultAction::Crash(p))));
+            let (o1, _, fired) = if k == u64::MAX {
+                clone_once_op(&env, f.seed_output, true, false, Some((0, FaultAction::Crash(0))), Op::Truncate)
+            } else {
+                clone_once(&env, f.seed_output, true, false, Some((k, FaultAction::Crash(p))))
+            };
             fired_total += fired;
-            let mut history = vec![format!("crash at write {} torn after {} -> {}", k, if p == usize::MAX { "all".to_string() } else { p.to_string() }, o1.short())];
-            if fired > 0 && k > 0 && k + 1 < w {
+            let mut history = vec![if k == u64::MAX {
+                format!("crash at the final resize (all writes landed) -> {}", o1.short())
+            } else {
+                format!("crash at write {} torn after {} -> {}", k, if p == usize::MAX { "all".to_string() } else { p.to_string() }, o1.short())
+            }];
+            if fired > 0 && k > 0 && k != u64::MAX && k + 1 < w {
                 mid_crashes += 1;
             }
             // further crashed re-runs
